@@ -206,7 +206,13 @@ class ModuleRun:
 
 # ------------------------------------------------------------------ ignore_methods leg
 def ignore_methods_leg(col, name, source, names, scratch):
-    """Two hooks in a row with ``config.configuration.ignore_methods`` (to_cover_config taken from the config)."""
+    """Two hooks in a row with ``config.configuration.ignore_methods`` (to_cover_config taken from the config).
+
+    Differential: ``ignore_methods = [<module>.<name> ...]`` must register exactly what ``no_cover = [<name> ...]``
+    registers (``ToCoverConfiguration.no_cover``: "Automatically include the methods of the ignore_methods
+    argument") -- on the first hook and on a second hook for the same module; a second hook for ANOTHER module
+    (same source, other name; ignore_methods still names only the first) must register the exclusion-free goals.
+    """
     import pynguin.configuration as config
 
     from mc import exclusions as ex
@@ -216,39 +222,33 @@ def ignore_methods_leg(col, name, source, names, scratch):
     base = ex.load(source, scratch, f"{name}_ig0", ex.to_cover_configuration())
     subsets = [s for r in range(1, len(names) + 1) for s in itertools.combinations(names, r)]
     for subset in subsets:
+        equivalent = ex.load(source, scratch, f"{name}_ig1", ex.to_cover_configuration((True, True), (), subset))
         for scenario in ("same-module-twice", "other-module-after"):
             col.count("evaluations")
             col.count("ignore_methods_scenarios")
             pyn.reset_config()
             mod_a, mod_b = f"{name}_iga", f"{name}_igb"
             config.configuration.ignore_methods = [f"{mod_a}.{n}" for n in subset] + ["unrelated_module.f"]
-            observations = []
             sequence = (mod_a, mod_a) if scenario == "same-module-twice" else (mod_a, mod_b)
-            for modname in sequence:
-                # to_cover=None: install_import_hook falls back to config.configuration.to_cover
-                observations.append(ex.load(source, scratch, modname, None))
+            # to_cover=None: install_import_hook falls back to config.configuration.to_cover
+            observations = [ex.load(source, scratch, modname, None) for modname in sequence]
             grown = list(config.configuration.to_cover.no_cover)
-            col.distinct("ignore_no_cover_after_two_hooks", tuple(sorted(grown)) == tuple(sorted(set(grown))))
-            expectations = [ex.Expectation(model, (), (), subset),
-                            ex.Expectation(model, (), (), subset if sequence[1] == mod_a else ())]
-            for which, (obs, exp) in enumerate(zip(observations, expectations)):
-                for v in ex.judge(exp, base, obs):
-                    sig, detail = v["sig"], v["detail"]
-                    first_ok = which == 1 and not list(ex.judge(expectations[0], base, observations[0]))
-                    if which == 1 and scenario == "other-module-after" and first_ok:
-                        sig_out = "accumulates-across-hooks"
-                    elif which == 1 and scenario == "same-module-twice" and first_ok:
-                        sig_out = "accumulates-across-hooks"
-                    else:
-                        sig_out = sig
-                    ss = model.by_name.get(subset[0], [])
-                    col.violation(f"C08|ignore_methods|{ss[0].construct() if ss else 'unknown-name'}|{sig_out}",
-                                  f"{name} ignore_methods={list(subset)} {scenario}, hook #{which + 1} "
-                                  f"(no_cover list is now {grown}): {detail}",
-                                  {"leg": "ignore", "name": name, "source": source, "names": list(names)},
-                                  rank=len(subset) * 1000 + model.n)
             if len(grown) != len(set(grown)):
                 col.count("ignore_methods_no_cover_list_has_duplicates")
+            expected = [equivalent, equivalent if sequence[1] == mod_a else base]
+            ss = model.by_name.get(subset[0], [])
+            construct = ss[0].construct() if ss else "unknown-name"
+            for which, (obs, want) in enumerate(zip(observations, expected)):
+                if obs.summary() == want.summary():
+                    col.count("ignore_methods_hooks_as_documented")
+                    continue
+                sig = "ignore_methods-differs-from-no_cover" if which == 0 else "accumulates-across-hooks"
+                col.violation(f"C08|ignore_methods|{construct}|{sig}",
+                              f"{name} ignore_methods={[f'{mod_a}.{n}' for n in subset]} {scenario}: hook #{which + 1} "
+                              f"(module {sequence[which]}; config.to_cover.no_cover is now {grown}) registers "
+                              f"{obs.summary()}, expected {want.summary()}",
+                              {"leg": "ignore", "name": name, "source": source, "names": list(names)},
+                              rank=len(subset) * 1000 + model.n)
     pyn.reset_config()
 
 
